@@ -389,7 +389,7 @@ static std::vector<Sizes> size_variants(const Sol& s) {
 }
 
 // ---------------------------------------------------------------- deviations through vx::Explorer
-static const char* TEXT_ALTS[] = {"0", "1", "-1", "+1", "-1n", "2147483647", "2147483648", "1e300", "", "x"};
+static const char* TEXT_ALTS[] = {"0", "1", "-1", "+1", "-1n", "2147483647", "2147483648", "1e300", "", "x", "nan", "inf", "-inf", "-2147483649", "0.5"};
 static std::string text_alt(const std::string& tok, int a) {
   if (a == 3 || a == 4) { char* e; double v = std::strtod(tok.c_str(), &e); double w = v + (a == 3 ? 1 : -1);
     if (tok.find_first_of(".eEn") == std::string::npos) return std::to_string((long long)w); return solref::fmt_g16(w); }
@@ -414,7 +414,7 @@ static std::string deviate_text(const Sol& s, vx::Explorer& ex) {
     int lc = pick(ex, 3, "line keep/delete/duplicate");
     if (lc == 1) continue;
     solref::Line m = l;
-    if (lc == 0) for (auto& t : m.t) if (t.numeric) { int a = pick(ex, 11, "token"); if (a) t.s = text_alt(t.s, a - 1); }
+    if (lc == 0) for (auto& t : m.t) if (t.numeric) { int a = pick(ex, 16, "token"); if (a) t.s = text_alt(t.s, a - 1); }
     o.lines.push_back(m); if (lc == 2) o.lines.push_back(m);
   }
   return o.render();
